@@ -52,8 +52,22 @@ def expand_world(k, rng):
     # hypernym paths through placeholders of an expand lexicon (they and the simulated
     # root share the rowid 0: ties in every order by rowid)
     w = worlds.expand_world(rng)
+    expand = rng.choice(['e:1', '*', 'e:1', None, None])
+    if rng.random() < 0.5:
+        # several installed dependencies and no expand argument: the expand lexicons are
+        # then worked out from the <Requires> elements, in their order
+        extra = []
+        for i in range(rng.randint(2, 4)):
+            s = w.add_lexicon(f'p{i}', '1', lang='en')
+            worlds.fill_lexicon(w, s, rng, 2, 0, ['i1', 'i2', 'i3', ''])
+            extra.append(s)
+        l = next(x for x in w.lex if x[0] == 'l:1')
+        l[5] = [r for r in l[5] if r != 'zz:9'] + extra
+        rng.shuffle(l[5])
+        w.lex.sort(key=lambda x: x[0] == 'l:1')      # the dependent lexicon last: all found
+        expand = None
     docs_ = [w.resource([l[0]]) for l in w.lex]
-    return {'id': k, 'docs': docs_, 'scope': 'l:1', 'expand': rng.choice(['e:1', '*', 'e:1']),
+    return {'id': k, 'docs': docs_, 'scope': 'l:1', 'expand': expand,
             'corpus': ['cat', 'dog'], 'queries': ['cat']}
 
 
